@@ -357,7 +357,13 @@ def derived_case(draw, tier):
     path = draw(st.sampled_from(['autograd', 'num_grad', 'man_grad', 'array_mode', 'matrix_data']))
     # keyword arguments of derived_observable are handed on to the function (value, replica means and derivative alike)
     kw = {'scale': draw(gen.fl(0.3, 3.0)), 'lin': draw(gen.fl(-2.0, 2.0))} if draw(st.integers(0, 2)) == 0 else None
-    return {'fn': name, 'ops': ops, 'path': path, 'kw': kw}
+    spec = {'fn': name, 'ops': ops, 'path': path, 'kw': kw}
+    if path == 'num_grad' and name in ('lin3', 'prodsum') and kw is None and draw(st.booleans()):
+        # a function of tiny magnitude (a correlator at large distance, an inverse volume): its derivatives are tiny numbers,
+        # which finite differences resolve as well as large ones (their absolute accuracy is proportional to |f|; for
+        # polynomials of degree <= 2 central differences have no truncation error)
+        spec['tiny'] = draw(st.sampled_from([1e-9, 1e-12, 1e-15, 1e-30]))
+    return spec
 
 
 def derived_oracle(spec):
@@ -384,6 +390,12 @@ def derived_oracle(spec):
     else:
         call_kw = {}
         func = lambda x, **kw: f(anp, x)  # noqa: E731
+    tiny = float(spec.get('tiny') or 1.0)
+    if tiny != 1.0:
+        f1 = f      # (only generated without keyword arguments)
+        f = lambda m, x: tiny * f1(m, x)  # noqa: E731
+        func = lambda x, **kw: tiny * f1(anp, x)  # noqa: E731
+        J = tiny * np.array(J, dtype=float)
     rtol = 1e-10
     if path == 'num_grad':
         if oshape is not None:
@@ -417,6 +429,8 @@ def derived_oracle(spec):
     labels = {'fn:' + spec['fn'], 'path:' + path}
     if kwd:
         labels.add('with_kwargs')
+    if tiny != 1.0:
+        labels.add('tiny_function')
     if path == 'matrix_data':
         labels.add(labels_extra)
     if oshape is None:
@@ -424,10 +438,11 @@ def derived_oracle(spec):
         rf = combine(lambda v: float(f(np, np.array(v))), list(J), refs)
         if path == 'num_grad':
             # finite differences with steps of order 0.1 resolve a gradient only to an absolute accuracy of about 1e-10
+            # (in units of the magnitude of f: `tiny` for the scaled polynomials)
             for n_ in rf.mag:
-                rf.mag[n_] += 1e-3 * max([r.mag.get(n_, 0.0) for r in refs] + [0.0])
+                rf.mag[n_] += 1e-3 * tiny * max([r.mag.get(n_, 0.0) for r in refs] + [0.0])
             for n_ in rf.cgmag:
-                rf.cgmag[n_] += 1e-3 * max([r.cgmag.get(n_, 0.0) for r in refs] + [0.0])
+                rf.cgmag[n_] += 1e-3 * tiny * max([r.cgmag.get(n_, 0.0) for r in refs] + [0.0])
         cmp_obs(rf, res, '%s via %s' % (spec['fn'], path), rtol=rtol, atol_scale=1e-12 if rtol < 1e-8 else 1e-7,
                 vtol=1e-11, check_form=True)
     else:
